@@ -663,7 +663,17 @@ impl Space for StreamSpace {
                 panic!("non-deterministic replay of a violating path: {:?} vs {:?} vs {:?}", s1.bad, s2.bad, last.bad);
             }
             let what = last.bad.clone().unwrap_or_default();
-            let short = what.split(':').next().unwrap_or("").chars().take(60).collect::<String>();
+            // "Op { kind: X, arg: n }: text" -> "X: text"
+            let short = {
+                let mut t = what.clone();
+                if let (Some(a), Some(b)) = (t.find("Op { kind: "), t.find(" }")) {
+                    if a < b {
+                        let kind = t[a + 11..b].split(',').next().unwrap_or("").to_string();
+                        t = format!("{}{}{}", &t[..a], kind, &t[b + 2..]);
+                    }
+                }
+                t.split(" [").next().unwrap_or("").split(" read [").next().unwrap_or("").chars().take(90).collect::<String>()
+            };
             let key = match self.which {
                 Which::C07 => format!("stream-vs-slice:{}", short),
                 Which::C08 => format!("stream-bounds:{}", short),
